@@ -119,10 +119,6 @@ def extract(src, problems):
         joins = [c.func.value.value for c in _calls(fn, 'join')
                  if isinstance(c.func.value, ast.Constant) and isinstance(c.func.value.value, str)]
         vals['secure_join_sep'] = _one(joins, "'<sep>'.join in _secure_path")
-        # the two tests must be applied to path_tuple itself, before anything else touches it
-        names = [a.id for c in _calls(fn, 'join') for a in c.args if isinstance(a, ast.Name)]
-        if names != ['path_tuple']:
-            raise ValueError('join is not applied to path_tuple')
 
     def f_resource_name():
         fn = st.find('static_view.get_resource_name')
@@ -169,7 +165,6 @@ def extract(src, problems):
         if imported != [name]:
             raise ValueError('%s is not imported from pyramid.traversal' % name)
         vals['view_decodes_again'] = SPLITTERS[name]
-        shapes['pyramid/static.py:static_view.get_resource_name[masked]'] = masked_shape(fn, (), set(SPLITTERS))
 
     def f_filemap():
         # the filemap must be per-instance state created in __init__: `self.filemap = {}`
